@@ -155,6 +155,13 @@ def dumpSt (s : St) : String :=
 
 def kindOf (pd : ProgDef) (r : RelId) : LatKind := pd.kinds.getD r .maxInt
 
+def doRun (s : EngStore) (inst : String) : Option (EngStore × String) := do
+    let i ← (s.insts.find? (·.1 == inst)).map (·.2)
+    match run (interp (kindOf i.pd)) i.cfg i.pd.prog i.pd.order defaultFuel i.st with
+    | .done ps => some ({ s with insts := (inst, { i with st := ps.st, iters := ps.iters }) :: s.insts.filter (·.1 != inst) }, "ok")
+    | .timedOut _ => some (s, "timedout?")
+    | .outOfFuel => some (s, "nofuel")
+
 def handleEng (s : EngStore) : List Sexp → Option (EngStore × String)
   | [.atom "prog", .atom id, p] => do
     let pd ← parseProg p
@@ -163,9 +170,19 @@ def handleEng (s : EngStore) : List Sexp → Option (EngStore × String)
     else some ({ s with progs := (id, pd) :: s.progs.filter (·.1 != id) }, "ok")
   | .atom "new" :: .atom inst :: .atom pid :: rest => do
     let pd ← (s.progs.find? (·.1 == pid)).map (·.2)
-    let par := rest == [.atom "par"]
+    let par := rest.head? == some (.atom "par")
     let i : Inst := { pd := pd, cfg := { parallel := par }, st := initSt pd.prog fun _ => [] }
     some ({ s with insts := (inst, i) :: s.insts.filter (·.1 != inst) }, "ok")
+  | [.atom "perturb", _] => some (s, "ok")
+  | .atom "conc" :: insts => do
+    -- concurrent runs of independent instances: each computes what it computes alone
+    let step (st : Option EngStore) (i : Sexp) : Option EngStore := do
+      let st ← st
+      let (st', out) ← doRun st (← i.asAtom?)
+      if out == "ok" then some st' else none
+    match insts.foldl step (some s) with
+    | some st => some (st, "ok")
+    | none => some (s, "bad-conc")
   | .atom op :: .atom inst :: r :: tuples =>
     if op == "load" || op == "push" then do
       let i ← (s.insts.find? (·.1 == inst)).map (·.2)
@@ -177,6 +194,7 @@ def handleEng (s : EngStore) : List Sexp → Option (EngStore × String)
       let rs' := if op == "load" then { rs with rows := ts } else { rs with rows := rs.rows ++ ts }
       let i' := { i with st := setNth i.st r rs' }
       some ({ s with insts := (inst, i') :: s.insts.filter (·.1 != inst) }, "ok")
+    else if op == "runin" then doRun s inst
     else if op == "runto" then do
       let i ← (s.insts.find? (·.1 == inst)).map (·.2)
       let k ← r.asNat?
@@ -186,12 +204,7 @@ def handleEng (s : EngStore) : List Sexp → Option (EngStore × String)
       | .timedOut ps => some ({ s with insts := (inst, { i with st := ps.st, iters := ps.iters }) :: s.insts.filter (·.1 != inst) }, "false")
       | .outOfFuel => some (s, "nofuel")
     else none
-  | [.atom "run", .atom inst] => do
-    let i ← (s.insts.find? (·.1 == inst)).map (·.2)
-    match run (interp (kindOf i.pd)) i.cfg i.pd.prog i.pd.order defaultFuel i.st with
-    | .done ps => some ({ s with insts := (inst, { i with st := ps.st, iters := ps.iters }) :: s.insts.filter (·.1 != inst) }, "ok")
-    | .timedOut _ => some (s, "timedout?")
-    | .outOfFuel => some (s, "nofuel")
+  | [.atom "run", .atom inst] => doRun s inst
   | [.atom "dump", .atom inst] => do
     let i ← (s.insts.find? (·.1 == inst)).map (·.2)
     some (s, dumpSt i.st)
